@@ -81,7 +81,14 @@ pub struct SsParams {
 }
 impl SsParams {
     pub fn to_params(&self, m: usize) -> SetSketchParams {
-        SetSketchParams::new(self.b.0, m as u64, self.a.0, self.q)
+        // for odd m the parameters are built with another size and adjusted through the public setter (both ways must be the same parameters)
+        if m % 2 == 1 {
+            let mut p = SetSketchParams::new(self.b.0, 4096, self.a.0, self.q);
+            p.set_m(m);
+            p
+        } else {
+            SetSketchParams::new(self.b.0, m as u64, self.a.0, self.q)
+        }
     }
     /// parameters chosen as the documentation prescribes for up to n items with clipping probability eps
     pub fn documented(b: f64, m: usize, n: f64, eps: f64) -> SsParams {
